@@ -125,6 +125,11 @@ func appendEdit(rng *rand.Rand, b *jBundle, step int) string {
 					e.Decl.Options = append(e.Decl.Options, "APPENDED_"+strings.ToUpper(c13Suffix[step%len(c13Suffix)]))
 					return "append option to enum " + e.Decl.Name
 				}})
+				targets = append(targets, target{"enum-option-named-like-zero", func() string {
+					// an ordinary option whose name merely ends the way the implicit zero option's name does
+					e.Decl.Options = append(e.Decl.Options, "LEGACY"+strings.ToUpper(c13Suffix[step%len(c13Suffix)])+"_UNSPECIFIED")
+					return "append option ending in _UNSPECIFIED to enum " + e.Decl.Name
+				}})
 				targets = append(targets, target{"enum-option-numbered", func() string {
 					name := "NUMBERED_" + strings.ToUpper(c13Suffix[step%len(c13Suffix)])
 					e.Decl.Options = append(e.Decl.Options, name)
